@@ -134,7 +134,7 @@ func Main(spec *Spec) {
 		}
 	}
 	if *mode == "replay" {
-		sim.HangAfter = 6 * time.Second // a single case takes milliseconds
+		sim.HangAfter = 30 * time.Second // a single case takes milliseconds; generous, because the machine may be busy
 	}
 	procRun := -1
 	if *mode == "process" {
